@@ -33,7 +33,7 @@ func steps(tier string, q, th int) int {
 func init() {
 	Engines["C01"] = chainEngine("C01", &sim.ChainCfg{Diff: true, Model: true},
 		func(tier string) *sim.GenParams {
-			return &sim.GenParams{Mix: sim.OpMix{"tx": 6, "kvtx": 5, "mine": 5, "deliver": 4, "walk": 4, "reopen": 1, "bg": 1, "clock": 1}, MaxSteps: steps(tier, 24, 40), MaxNodes: 3, Windows: []int{0}, MapOrders: true, SmallCache: true, Defer: true}
+			return &sim.GenParams{Mix: sim.OpMix{"tx": 6, "kvtx": 5, "mine": 5, "deliver": 4, "walk": 4, "reopen": 1, "bg": 1, "clock": 1, "badblock": 2}, MaxSteps: steps(tier, 24, 40), MaxNodes: 3, Windows: []int{0}, MapOrders: true, SmallCache: true, Defer: true}
 		}, "",
 		func(st *sim.RunStats) bool {
 			return st.Probes["walk-undo"] > 0 && st.Probes["fresh-replay-compared"] > 0
